@@ -600,8 +600,8 @@ class PolytopeCheck(Check):
 
     def budget(self, tier):
         if tier == "quick":
-            return {"runs": 160, "chunk": 2, "wall": 200, "run_timeout": 300, "min_wall": 60}
-        return {"runs": 900, "chunk": 2, "wall": 1700, "run_timeout": 1500, "min_wall": 300}
+            return {"runs": 320, "chunk": 2, "wall": 200, "run_timeout": 300, "min_wall": 60}
+        return {"runs": 1600, "chunk": 2, "wall": 1700, "run_timeout": 1500, "min_wall": 300}
 
     def preload(self):
         import molgri.space.polytopes  # noqa: F401
@@ -609,7 +609,9 @@ class PolytopeCheck(Check):
     def generate(self, rng, tier):
         kind = rng.choice(["ico", "cube3D", "cube4D", "ico", "cube3D"])
         if tier == "quick":
-            max_level = {"ico": 3, "cube3D": 3, "cube4D": 1}[kind]
+            # level 4 costs ~1 s per divide: reached in a fraction of the quick runs, routinely in thorough
+            deep = rng.random() < 0.25
+            max_level = {"ico": 4 if deep else 3, "cube3D": 4 if deep else 3, "cube4D": 1}[kind]
         else:
             max_level = {"ico": rng.choice([3, 4]), "cube3D": rng.choice([3, 4]), "cube4D": rng.choice([1, 1, 2])}[kind]
         n_inst = rng.choice([1, 2])
